@@ -1146,8 +1146,32 @@ static void build_large (int thorough, const char *which)
 				}
 			}
 		}
+	if (strstr (which, "rs")) {
+		/* k sweep: every k (n = k+3) with one, two and three erased sources replaced by repairs, both codecs */
+		int k, codec;
+		for (codec = 1; codec <= 2; codec++)
+			for (k = 4; k <= 252; k += thorough ? 1 : (k < 70 ? 1 : 3)) {
+				c0 = NCF; add_cfg (codec, 8, k, 3, 0, 0, 4, 0, 0, 0);
+				add_scen (c0, "Sx%d/%d,F", k / 2, k + 1);
+				add_scen (c0, "Rx0.%d/%d.%d,F", k - 1, k, k + 2);
+				add_scen (c0, "Bx0.1.%d/%d.%d.%d", k - 1, k, k + 1, k + 2);
+				if (k & 1) add_scen (c0, "Sa-,F");
+			}
+	}
 	if (strstr (which, "ldpc")) {
-		static const int kr[][2] = {{100, 50}, {1000, 500}, {40, 20}, {255, 64}, {1000, 10}, {700, 6}, {3000, 12}, {200, 100}, {300, 40}};	/* the last three: equations with more than 255 symbols */
+		/* r sweep and k sweep: every number of repair symbols 3..130 (k=40) and every k 3..300 (r=20), a few ML-needing patterns each */
+		int k, r;
+		for (r = 3; r <= (thorough ? 260 : 130); r++) {
+			c0 = NCF; add_cfg (3, 0, 40, r, 3 + r % 3 <= r ? 3 + r % 3 : 3, 1 + r % 4, 4, 0, 0, 0);
+			add_scen (c0, "Sw0+40,F"); add_scen (c0, "Sw%d+41,F", r / 2); add_scen (c0, "Bw%d+40,F", r); add_scen (c0, "Sp2.0,F"); add_scen (c0, "Cp3.1,F"); add_scen (c0, "Ra-1,F");
+		}
+		for (k = 3; k <= (thorough ? 520 : 300); k += thorough ? 1 : (k < 80 ? 1 : 4)) {
+			c0 = NCF; add_cfg (3, 0, k, 20, 3 + k % 2, 1 + k % 5, 4, 0, 0, 0);
+			add_scen (c0, "Sw0+%d,F", k); add_scen (c0, "Sw%d+%d,F", 7, k + 1); add_scen (c0, "Bw%d+%d,F", 20, k); add_scen (c0, "Sp3.0,F"); add_scen (c0, "Ep2.1,F");
+		}
+	}
+	if (strstr (which, "ldpc")) {
+		static const int kr[][2] = {{100, 50}, {1000, 500}, {40, 20}, {255, 64}, {1000, 10}, {700, 6}, {3000, 12}, {200, 100}, {300, 40}, {90, 264}, {60, 300}};	/* the last two: more than 256 repair symbols (long peeling chains) */	/* the last three: equations with more than 255 symbols */
 		for (i = 0; i < (int) (sizeof kr / sizeof kr[0]); i++) {
 			int k = kr[i][0], r = kr[i][1], n = k + r, N1;
 			if (!thorough && k >= 1000 && r != 10) continue;
@@ -1179,7 +1203,7 @@ static void build_large (int thorough, const char *which)
 /* lens mode (C07): symbol lengths x alignments on a reduced list, scenario per (cfg,len,align) */
 static void build_lens (int thorough, const char *which)
 {
-	static const int lens[] = {1, 2, 3, 4, 5, 6, 7, 8, 9, 10, 11, 12, 13, 14, 15, 16, 17, 18, 19, 20, 21, 22, 23, 24, 25, 26, 27, 28, 29, 30, 31, 32, 33, 34, 35, 36, 37, 38, 39, 40, 63, 64, 65, 100, 127, 128, 129, 255, 256, 257, 1023, 1024, 1025, 1500};
+	static const int lens[] = {1, 2, 3, 4, 5, 6, 7, 8, 9, 10, 11, 12, 13, 14, 15, 16, 17, 18, 19, 20, 21, 22, 23, 24, 25, 26, 27, 28, 29, 30, 31, 32, 33, 34, 35, 36, 37, 38, 39, 40, 63, 64, 65, 100, 127, 128, 129, 255, 256, 257, 511, 512, 513, 1023, 1024, 1025, 1500, 2047, 2048, 2049, 4095, 4096, 4097, 8192, 16384, 32768, 65535, 65536};
 	static const int base[][6] = { /* codec m k r N1 seed */
 		{1, 8, 3, 2, 0, 0}, {1, 8, 5, 3, 0, 0}, {2, 8, 3, 2, 0, 0}, {2, 8, 4, 4, 0, 0}, {2, 4, 3, 2, 0, 0}, {2, 4, 7, 8, 0, 0},
 		{3, 0, 4, 4, 3, 1}, {3, 0, 6, 4, 4, 2}, {3, 0, 5, 5, 5, 1}, {3, 0, 8, 6, 3, 7},
@@ -1192,7 +1216,8 @@ static void build_lens (int thorough, const char *which)
 				int k = base[bi][2], r = base[bi][3], cb;
 				if (!strstr (which, base[bi][0] == 3 ? "ldpc" : "rs")) continue;
 				if (!thorough && (al & 1) && lens[li] > 20) continue;
-				if (lens[li] >= 100 && al > 1 && !(thorough && al == 5)) continue;	/* long symbols: alignments 0 and 1 (thorough: also 5) */
+				if (lens[li] >= 100 && al > 1 && !(thorough && al == 5)) continue;
+				if (lens[li] > 1500 && (al > 0 || (bi != 0 && bi != 2 && bi != 4 && bi != 6))) continue;	/* very long symbols: one configuration per codec, alignment 0 */	/* long symbols: alignments 0 and 1 (thorough: also 5) */
 				for (cb = 0; cb <= 1; cb++) {
 					c0 = NCF;
 					add_cfg (base[bi][0], base[bi][1], k, r, base[bi][4], base[bi][5], 0, al, cb, 0);
